@@ -53,6 +53,7 @@ type Driver struct {
 	ks      oidc.KeySet  // library key set on the provider's /keys
 	rot     int
 
+	host        string                    // non-empty: address requests of the current operation to this tenant
 	respJournal []modelstore.JournalEntry // storage calls made while the requests of the current operation were served
 }
 
@@ -183,6 +184,9 @@ func Serve(h http.Handler, req *http.Request) *RawResponse {
 
 func (d *Driver) get(path string, q url.Values, hdr http.Header) *RawResponse {
 	u := Issuer + path
+	if d.host != "" {
+		u = d.host + path
+	}
 	if len(q) > 0 {
 		u += "?" + q.Encode()
 	}
@@ -843,6 +847,10 @@ func (d *Driver) Exec(opName string, a M) M {
 		d.Store.SetFault(k, "", kind)
 	}
 	d.respJournal = nil
+	d.host = ""
+	if S(a, "host") == "B" {
+		d.host = TenantB
+	}
 	defer func() {
 		d.Store.SetFault(0, "", "")
 		j := append(d.respJournal, d.Store.TakeJournal()...)
@@ -1225,6 +1233,26 @@ func (d *Driver) HintString(h M) string {
 		c := cloneM(claims)
 		c["exp"] = time.Now().Add(-time.Hour).Unix()
 		c["iat"] = time.Now().Add(-2 * time.Hour).Unix()
+		return sign(c, d.Store.Signing)
+	case "multiaud":
+		// validly signed, issued to the same client (azp), but the audience lists a second client as well
+		c := cloneM(claims)
+		first := ""
+		switch a := claims["aud"].(type) {
+		case []any:
+			if len(a) > 0 {
+				first, _ = a[0].(string)
+			}
+		case string:
+			first = a
+		}
+		for _, other := range []string{"cw", "cx", "cj"} {
+			if other != first {
+				c["aud"] = []string{first, other}
+				break
+			}
+		}
+		c["azp"] = first
 		return sign(c, d.Store.Signing)
 	case "wrongkey":
 		return sign(claims, modelstore.GenKey("foreign-op", d.Store.Signing.Alg))
